@@ -20,8 +20,9 @@ TECHNIQUE = ('stateful fuzzing with an exact reference-count oracle on the sanit
              'unusable keys, comparisons that raise at a generated index), set algebra whose results stay '
              'alive, conflict merges, lazy sequences and iterators, pickling, eviction in a mini-ZODB '
              'connection, clear and destruction; ASan/UBSan + asserts turn bad memory accesses into crashes')
-RULE = ('a case is a configuration + history.  Non-trivial: it contains at least one replace, one leaf '
-        'unlink and one failing call.  Distinct = distinct case JSON.')
+RULE = ('a case is a configuration + history.  Non-trivial: it contains at least one failing call, at least one '
+        'replace when the container is a mapping, and at least one leaf unlink when it is a tree.  Distinct = '
+        'distinct case JSON.')
 ASSUMPTIONS = ['C implementation only (the property is about the extension)',
                'reference-count equation: getrefcount - harness references == slots found by walking '
                '__getstate__ (leaf key slots, leaf value slots, separator slots)',
@@ -71,7 +72,8 @@ def _cases(shard):
                 op('algebra', st.sampled_from(['union', 'intersection', 'difference', 'or', 'and', 'sub']), st.lists(K, max_size=8),
                    st.sampled_from(['Set', 'TreeSet', 'list'] + (['Bucket', 'BTree'] if is_map else [])), boom),
                 op('merge', st.lists(K, max_size=4), st.lists(K, max_size=4), st.lists(K, max_size=4), boom),
-                op('pickle'), op('badkey'), op('clear'), op('copy'),
+                op('pickle'), op('badkey'), op('clear'), op('copy'), op('delrun', K, st.integers(2, 6)),
+                op('delrun', K, st.integers(2, 6)),
                 op('badstate', st.lists(K, min_size=1, max_size=6), st.integers(0, 5), st.booleans())]
         hist = draw(st.lists(st.one_of(*ops), min_size=4, max_size=45))
         fill = draw(st.integers(0, 14))
@@ -251,7 +253,8 @@ def run_case(case, ctx):
         if bad:
             ctx.mismatch('after destroying the container, references remain: %s' % (bad[:4],),
                          dict(sig, what='refcount', leak=True))
-    nontrivial = stats['replace'] >= 1 and stats['unlink'] >= 1 and stats['fail'] >= 1
+    nontrivial = (stats['fail'] >= 1 and (stats['replace'] >= 1 or not w.is_map)
+                  and (stats['unlink'] >= 1 or not w.is_tree))
     classes += ['had:' + k for k, v in stats.items() if v]
     return nontrivial, classes
 
@@ -523,6 +526,16 @@ def _step(w, t, klass, op, alive, stats, classes):
             stats['fail'] += 1
             classes.append('badstate:rejected')
         del x, data
+    elif name == 'delrun':
+        # delete a run of neighbouring keys: empties and unlinks whole leaves
+        for n in range(op[1], op[1] + op[2]):
+            if n in m:
+                k = w.K(n)
+                if w.is_map:
+                    del t[k]
+                else:
+                    t.remove(k)
+                del m[n]
     elif name == 'clear':
         t.clear()
         m.clear()
